@@ -17,6 +17,13 @@ type ParseCase struct {
 	A    HexBytes `json:"a"` // earlier input (nil = none)
 	B    HexBytes `json:"b"`
 	HasA bool     `json:"has_a"`
+	// Earlier: inputs decoded into the same receiver BEFORE A (a longer history: state left
+	// behind by a rejected input may only show on the decode after the next one)
+	Earlier []HexBytes `json:"earlier,omitempty"`
+	// SameBuf: all inputs of the history are read into ONE receive buffer (the usual receive
+	// loop: one buffer, one Packet), so slices kept from an earlier decode point into the
+	// memory the next input is written to
+	SameBuf bool `json:"same_buf,omitempty"`
 }
 
 var subC02 = register("C02", "parse", checkC02)
@@ -232,14 +239,43 @@ func checkC02(r *run, c *ParseCase) (CaseInfo, error) {
 	if c.HasA {
 		ci.class("reuse")
 		var used rtp.Packet
+		for _, e := range c.Earlier {
+			_ = used.Unmarshal(clone(e))
+		}
+		if len(c.Earlier) > 0 {
+			ci.class("reuse-chain>=3")
+		}
+		var shared []byte
+		if c.SameBuf {
+			ci.class("reuse-same-receive-buffer")
+			shared = make([]byte, 1600+len(c.A)+len(c.B))
+			for i := range shared {
+				shared[i] = 0xDD
+			}
+			used = rtp.Packet{}
+			for _, e := range c.Earlier {
+				if len(e) <= len(shared) {
+					_ = used.Unmarshal(shared[:copy(shared, e)])
+				}
+			}
+		}
 		a := clone(c.A)
+		if c.SameBuf {
+			a = shared[:copy(shared, c.A)]
+		}
 		_ = used.Unmarshal(a)
 		if len(used.CSRC) > int(safeCC(in)) || len(used.Extensions) > len(fresh.Extensions) {
 			ci.class("reuse-earlier-had-more")
 			ci.Nontrivial = true
 		}
 		in2 := clone(c.B)
+		if c.SameBuf {
+			in2 = shared[:copy(shared, c.B)]
+		}
 		err2 := used.Unmarshal(in2)
+		if !bytes.Equal(in2, c.B) {
+			return ci, failf("Unmarshal of %s into a Packet that had decoded %s from the same receive buffer modified its input: %s", hx(c.B), hx(c.A), hx(in2))
+		}
 		if got, want := decodeObs(&used, err2), decodeObs(&fresh, err); got != want {
 			if err == nil && err2 == nil && !fresh.Extension && used.ExtensionProfile != fresh.ExtensionProfile {
 				f2 := used
@@ -258,6 +294,9 @@ func checkC02(r *run, c *ParseCase) (CaseInfo, error) {
 		}
 	hdr:
 		var uh rtp.Header
+		for _, e := range c.Earlier {
+			_, _ = uh.Unmarshal(clone(e))
+		}
 		_, _ = uh.Unmarshal(clone(c.A))
 		n2, e2 := uh.Unmarshal(clone(c.B))
 		if got, want := headerObs(&uh, n2, e2), headerObs(&fh, hn, herr); got != want {
@@ -322,6 +361,20 @@ func genParseCase(t *rapid.T) *ParseCase {
 	if rapid.IntRange(0, 2).Draw(t, "reuse") != 0 {
 		c.HasA = true
 		c.A = genHostile(t, "a")
+		c.SameBuf = rapid.IntRange(0, 2).Draw(t, "samebuf") == 0
+		if rapid.IntRange(0, 2).Draw(t, "chain") == 0 {
+			k := rapid.IntRange(1, 2).Draw(t, "nearlier")
+			for i := 0; i < k; i++ {
+				c.Earlier = append(c.Earlier, genHostile(t, "earlier"))
+			}
+		}
+		// short rejected inputs are what leaves half-updated state behind: make them frequent
+		if rapid.IntRange(0, 3).Draw(t, "shorta") == 0 {
+			c.A = rapid.SliceOfN(rapid.Byte(), 0, 16).Draw(t, "shortabytes")
+			if len(c.A) > 0 {
+				c.A[0] = rapid.SampledFrom([]uint8{0x80, 0x8F, 0x81, 0x90, 0xA0, 0x9F}).Draw(t, "shorta0")
+			}
+		}
 	}
 
 	return c
@@ -337,7 +390,7 @@ func enumC02(r *run, maxTail int) {
 	alpha := []byte{0x00, 0x01, 0x02, 0x10, 0x11, 0x1F, 0xF0, 0xFF}
 	var total, nontriv int64
 	classes := map[string]int64{}
-	var prev []byte
+	var prev, prev2 []byte
 	idx := 0
 	for _, fb := range first {
 		for _, prof := range profiles {
@@ -371,6 +424,9 @@ func enumC02(r *run, maxTail int) {
 							x /= len(alpha)
 						}
 						c := &ParseCase{B: img, A: prev, HasA: prev != nil}
+						if prev2 != nil && v%3 == 0 {
+							c.Earlier = []HexBytes{prev2}
+						}
 						info, err := subC02.exec(r, c)
 						total++
 						if info.Nontrivial {
@@ -384,7 +440,7 @@ func enumC02(r *run, maxTail int) {
 
 							return
 						}
-						prev = img
+						prev2, prev = prev, img
 					}
 				}
 			}
@@ -394,7 +450,7 @@ func enumC02(r *run, maxTail int) {
 	r.col.Exhaustive(fmt.Sprintf("C02 structured short packets: 6 first bytes x 4 profiles x 0-3 words x all tails <=%d bytes over an 8-symbol alphabet", maxTail), envShards == 1)
 }
 
-const ruleC02 = "inputs: random byte strings, valid RFC images (reference builder) and 1-3 byte-level mutations of them (truncate/flip/set/add/insert/delete, biased to the header), plus an exhaustive enumeration of structured short packets over a boundary alphabet; 2/3 of the cases decode an earlier hostile input into the same receiver first. Oracle: no panic, input unmodified, certificate walk of every accepted parse against the input bytes, Header/Packet agreement, fresh-vs-reused equality. Non-trivial = rejected input, accepted input with an extension, or reuse where the earlier input had more CSRCs/extensions; distinct = FNV-64 of the (A,B) pair"
+const ruleC02 = "inputs: random byte strings, valid RFC images (reference builder) and 1-3 byte-level mutations of them (truncate/flip/set/add/insert/delete, biased to the header), plus an exhaustive enumeration of structured short packets over a boundary alphabet; 2/3 of the cases decode one to three earlier hostile inputs (often short, rejected ones) into the same receiver first. Oracle: no panic, input unmodified, certificate walk of every accepted parse against the input bytes, Header/Packet agreement, fresh-vs-reused equality. Non-trivial = rejected input, accepted input with an extension, or reuse where the earlier input had more CSRCs/extensions; distinct = FNV-64 of the (A,B) pair"
 
 func TestC02(t *testing.T) {
 	r := begin(t, "C02", "exploration", ruleC02)
